@@ -190,6 +190,164 @@ theorem forwarded_iff {cfg : Cfg} {o : Oracle} {height now : Int} {s : WState} (
   · rintro ⟨⟨pb, hpb, hu, hh, hm, hcf⟩, hs⟩; exact ⟨pb, hpb, hu, hh, hm, hcf, hs⟩
   · rintro ⟨pb, hpb, hu, hh, hm, hcf, hs⟩; exact ⟨⟨pb, hpb, hu, hh, hm, hcf⟩, hs⟩
 
+/-! ## restarts of `Run` on the same `Watcher` value -/
+
+/-- **A restarted watcher fetches afresh.** Whatever the previous incarnations did (`s0` is arbitrary), the incarnation
+started by `restartW` with polled count `c0` fetches, at its first tick with a count `c > c0`, exactly the log positions
+`[c0, n)` of a consistent node — nothing below `c0` a second time — and stays alive; while the count stays `c0` it asks
+for no page and delivers nothing. -/
+theorem restart_fetches_fresh {log : List Event} {vis size : Nat → Nat} {page : Nat → Int → Option Page}
+    (hc : Consistent log vis size page) (ans : Bytes → TiAns) (s0 : WState) (c0 c fuel : Nat)
+    (hfc : c0 < c) (hcv : c ≤ vis 0) (hfuel : c - c0 ≤ fuel) :
+    (∃ n : Nat, c ≤ n ∧ n ≤ log.length ∧
+      (fetchTick ans (some c) page fuel (restartW s0 (some c0))).2 = some (handleUnconfirmed ans ((log.drop c0).take (n - c0))) ∧
+      (∀ u ∈ handleUnconfirmed ans ((log.drop c0).take (n - c0)), u.ev ∈ log.drop c0) ∧
+      (fetchTick ans (some c) page fuel (restartW s0 (some c0))).1.fromIndex = n ∧
+      (fetchTick ans (some c) page fuel (restartW s0 (some c0))).1.alive = true) ∧
+    (fetchTick ans (some c0) page fuel (restartW s0 (some c0))).2 = none := by
+  constructor
+  · obtain ⟨n, h1, h2, h3, h4, h5⟩ := fetch_tick hc ans (restartW s0 (some c0)) c0 c fuel rfl hfc hcv hfuel
+    refine ⟨n, h1, h2, h3, ?_, h4, by rw [h5]; rfl⟩
+    intro u hu
+    exact List.mem_of_mem_take (C08.fetched_attest_valid ans _ u hu).1
+  · simp [fetchTick, restartW]
+
+private def exLog3 : List Event := exLog ++ [⟨2, "b", "t2", 0, "-", some ⟨[7], 2, 0, 0, 1, [1]⟩⟩]
+private def exPage3 : Nat → Int → Option Page := fun _ s =>
+  some ⟨(exLog3.drop s.toNat).take (min (s.toNat + 2) 3 - s.toNat), (min (s.toNat + 2) 3 : Nat)⟩
+example : Consistent exLog3 (fun _ => 3) (fun _ => 2) exPage3 :=
+  { size_pos := fun _ => by decide, vis_mono := fun _ => Nat.le_refl _, vis_le := fun _ => by decide,
+    answer := fun k s _ => by simp [exPage3] }
+-- an incarnation that had reached index 1 is restarted when the count is 2: only position 2 is fetched afterwards
+example : (fetchTick (fun _ => .apiErr) (some 3) exPage3 5 (restartW { fromIndex := 1 } (some 2))).2
+    = some [⟨⟨2, "b", "t2", 0, "-", some ⟨[7], 2, 0, 0, 1, [1]⟩⟩, ⟨[7], 2, 0, 0, 1, [1]⟩⟩] := by decide
+
+/-! ## metadata lookups leave no trace
+
+The token-metadata answers are a parameter of every single tick (`ans`) and of every single re-observation request
+(`node.ti`): nothing about an earlier lookup — that it happened, for which id, that it failed — is part of the watcher's state. -/
+
+/-- Where a tick leaves the fetch index, and whether the watcher is still alive, does not depend on what the token
+contracts answered during the tick. -/
+theorem lookups_leave_no_trace (ans₁ ans₂ : Bytes → TiAns) (cnt : Option Int) (page : Nat → Int → Option Page) (fuel : Nat) (s : WState) :
+    (fetchTick ans₁ cnt page fuel s).1.fromIndex = (fetchTick ans₂ cnt page fuel s).1.fromIndex ∧
+    (fetchTick ans₁ cnt page fuel s).1.alive = (fetchTick ans₂ cnt page fuel s).1.alive := by
+  unfold fetchTick
+  cases cnt with
+  | none => exact ⟨rfl, rfl⟩
+  | some c =>
+    simp only
+    split
+    · exact ⟨rfl, rfl⟩
+    · split <;> exact ⟨rfl, rfl⟩
+
+/-- What a tick delivers depends on the state it starts from through the fetch index only. -/
+theorem delivery_depends_on_index_only (ans : Bytes → TiAns) (cnt : Option Int) (page : Nat → Int → Option Page) (fuel : Nat)
+    (s s' : WState) (h : s.fromIndex = s'.fromIndex) :
+    (fetchTick ans cnt page fuel s).2 = (fetchTick ans cnt page fuel s').2 := by
+  unfold fetchTick
+  cases cnt with
+  | none => rfl
+  | some c =>
+    simp only [h]
+    split
+    · rfl
+    · split <;> rfl
+
+/-- **A genuine attestation after failed lookups.** Against a consistent node, a tick started at fetch index `f` — in whatever
+state `s` earlier ticks, with whatever metadata answers, have left the watcher — delivers every event below the polled
+count that has index 0, converts, and (if attestation-shaped) equals what the token contract reports *in this tick*. -/
+theorem genuine_attest_delivered {log : List Event} {vis size : Nat → Nat} {page : Nat → Int → Option Page}
+    (hc : Consistent log vis size page) (ans : Bytes → TiAns) (s : WState) (f c fuel : Nat)
+    (hf : s.fromIndex = f) (hfc : f < c) (hcv : c ≤ vis 0) (hfuel : c - f ≤ fuel)
+    (e : Event) (he : e ∈ (log.drop f).take (c - f)) (m : Msg) (hidx : e.idx = 0) (hconv : e.conv = some m)
+    (hval : isAttest m = true → validateAttest ans m = true) :
+    ∃ batch, (fetchTick ans (some c) page fuel s).2 = some batch ∧ (⟨e, m⟩ : Unconf) ∈ batch := by
+  obtain ⟨n, h1, _, h3, _, _⟩ := fetch_tick hc ans s f c fuel hf hfc hcv hfuel
+  refine ⟨_, h3, ?_⟩
+  have hsub : e ∈ (log.drop f).take (n - f) := by
+    have e1 : (log.drop f).take (c - f) = ((log.drop f).take (n - f)).take (c - f) := by
+      rw [List.take_take]; congr 1; omega
+    rw [e1] at he
+    exact List.mem_of_mem_take he
+  exact List.mem_filterMap.2 ⟨e, hsub, (acceptEv_iff ans e ⟨e, m⟩).2 ⟨rfl, hidx, hconv, hval⟩⟩
+
+private def exTok : Bytes := List.replicate 31 0 ++ [9]
+private def exAttest : Bytes := [2] ++ exTok ++ [0, 255, 8] ++ (List.replicate 31 0 ++ [65]) ++ (List.replicate 31 0 ++ [66])
+private def exAttMsg (sender : Bytes) : Msg := ⟨sender, 0, 0, 1, 0, exAttest⟩
+private def exTiOk : Bytes → TiAns := fun _ => .results [.ok [.bytes (some [65])], .ok [.bytes (some [66])], .ok [.u256 (some 8)]]
+private def exTiFail : Bytes → TiAns := fun _ => .results [.ok [.bytes (some [65])], .failed, .ok [.u256 (some 8)]]
+private def exLogA : List Event := [⟨0, "b", "t0", 0, "-", some (exAttMsg [8])⟩, ⟨1, "b", "t1", 0, "-", some (exAttMsg [7])⟩]
+private def exPageA : Nat → Int → Option Page := fun _ s => some ⟨(exLogA.drop s.toNat).take 1, (min (s.toNat + 1) 2 : Nat)⟩
+-- tick 1: a foreign sender's attestation-shaped event names the token while its `name` call fails: nothing is delivered;
+-- tick 2: the contract answers, the token bridge's attestation of the same id is delivered
+example : (fetchTick exTiFail (some 1) exPageA 3 {}).2 = some [] := by decide
+example : (fetchTick exTiOk (some 2) exPageA 3 (fetchTick exTiFail (some 1) exPageA 3 {}).1).2
+    = some [⟨⟨1, "b", "t1", 0, "-", some (exAttMsg [7])⟩, exAttMsg [7]⟩] := by decide
+
+private theorem govEvents_complete {cfg : Cfg} {node : ReobsNode} {bh : Hash} {evs : List Event}
+    {cands : List (Unconf × Header)} (hg : govEvents cfg node bh evs = some cands)
+    {e : Event} (he : e ∈ evs) (hidx : e.idx = 0) (hgov : e.contract = cfg.gov) (hb : e.block = bh)
+    {h : Header} (hh : node.hdr bh = some h) {m : Msg} (hm : e.conv = some m)
+    (hatt : isAttest m = true → validateAttest node.ti m = true) :
+    ((⟨e, m⟩ : Unconf), h) ∈ cands := by
+  induction evs generalizing cands with
+  | nil => simp at he
+  | cons e' rest ih =>
+    rcases List.mem_cons.1 he with rfl | hin
+    · have hav : (isAttest m && !validateAttest node.ti m) = false := by
+        cases ha : isAttest m
+        · simp
+        · simp [hatt ha]
+      simp only [govEvents, hidx, ne_eq, not_true_eq_false, if_false, hb, hh, hm, hav, Bool.false_eq_true] at hg
+      cases hr : govEvents cfg node bh rest with
+      | none => simp [hr, hgov] at hg
+      | some l =>
+        simp only [hr, Option.map_some, hgov, not_true_eq_false, or_self, if_false, Option.some.injEq] at hg
+        subst hg
+        simp
+    · simp only [govEvents] at hg
+      split at hg
+      · exact ih hg hin
+      · split at hg
+        · exact ih hg hin
+        · split at hg
+          · cases hg
+          · split at hg
+            · cases hg
+            · split at hg
+              · exact ih hg hin
+              · cases hr : govEvents cfg node bh rest with
+                | none => simp [hr] at hg
+                | some l =>
+                  simp only [hr, Option.map_some, Option.some.injEq] at hg
+                  subst hg
+                  exact List.mem_cons_of_mem _ (ih hr hin)
+
+/-- **Re-observation hands over what is final** — and it is a function of the answers of *this* request only (`node`): a
+re-observation request for a transaction confirmed in a block the node calls canonical, all of whose governance-contract
+events in that block have a header and convert, forwards every such event that comes from the token bridge, is final at the
+height answered, and — for an attestation — equals what the token contract reports now; whatever earlier requests or ticks
+looked up about the same token id, and with whatever result. -/
+theorem reobserve_forwards (cfg : Cfg) (node : ReobsNode) (now : Int) (tx : Hash) {bh : Hash} {evs : List Event}
+    {cands : List (Unconf × Header)} {height : Int}
+    (hst : node.status = some (.confirmed bh)) (hev : node.txEvents = some evs) (hg : govEvents cfg node bh evs = some cands)
+    (hmain : node.main bh = some true) (hheight : node.height = some height)
+    {e : Event} (he : e ∈ evs) (hidx : e.idx = 0) (hgov : e.contract = cfg.gov) (hb : e.block = bh)
+    {h : Header} (hh : node.hdr bh = some h) {m : Msg} (hm : e.conv = some m) (hs : m.sender = cfg.bridge)
+    (hc : isEventConfirmed m h now height cfg.mainnet = true)
+    (hatt : isAttest m = true → validateAttest node.ti m = true) :
+    toPub tx m h ∈ reobserve cfg node now ChainIdAlephium 32 tx := by
+  have hin := govEvents_complete hg he hidx hgov hb hh hm hatt
+  simp only [reobserve, ne_eq, not_true_eq_false, if_false, hst, hev, hg, hmain, hheight]
+  exact List.mem_map.2 ⟨(⟨e, m⟩, h), List.mem_filter.2 ⟨List.mem_filter.2 ⟨hin, hc⟩, by simpa using hs⟩, rfl⟩
+
+private def exReNode (ti : Bytes → TiAns) : ReobsNode :=
+  { status := some (.confirmed "b"), txEvents := some [⟨0, "b", "t1", 0, "gov", some (exAttMsg [7])⟩],
+    hdr := fun _ => some ⟨100, 0⟩, main := fun _ => some true, height := some 100, ti := ti }
+example : reobserve ⟨false, [7], "gov"⟩ (exReNode exTiFail) 0 255 32 "t1" = [] := by decide
+example : reobserve ⟨false, [7], "gov"⟩ (exReNode exTiOk) 0 255 32 "t1" = [toPub "t1" (exAttMsg [7]) ⟨100, 0⟩] := by decide
+
 /-! ## eventual, exactly-once forwarding -/
 
 /-- `u` is filed under its block, whose header is either not fetched yet or is `h` -/
